@@ -2,11 +2,21 @@
     (the rank normalisation [sanitizeIndexes] used by GetByRankRange /
     ZRangeByRank / ZRemRangeByRank), re-translated to Gallina from /repo on
     every run (generated/GoZSet.v), equals the model's [z_sanitize], on which
-    the rank theorems of C07.v rest.  The skiplist itself (towers, spans,
+    the rank theorems of C07.v rest.  The write calls ZRem and ZRemRangeByRank
+    of the transaction layer (tx_zset.go over tx.go put / checkTxIsClosed,
+    re-translated into generated/GoTxZ.v) are the model's [do_op] branches:
+    [zhas b] stands for [alookup (ix_zset ix) b <> None]; on success ONE
+    record with the model's fields (flag, structure, key, value, clock, tx id)
+    is appended to the pending writes and tx.db is untouched, on every error
+    the transaction object is unchanged, a finished transaction gets an error
+    (C12).  Statements copied from gosem/GoTxZFacts.v.  The skiplist itself (towers, spans,
     backward pointers) is pointer code and is tied by the correspondence only. *)
 From Verif Require Import Bytes ListDS ZSetDS.
 From VerifGo Require Import GoSem GoListFacts GoZSetFacts.
 From VerifGen Require Import GoZSet.
+From Verif Require Import Codec Dec Engine.
+From VerifGo Require GoTxZFacts.
+From VerifGen Require GoTxZ.
 Open Scope Z_scope.
 
 Theorem C07_code_sanitizeIndexes : forall ss s e,
@@ -14,3 +24,45 @@ Theorem C07_code_sanitizeIndexes : forall ss s e,
   go_SortedSet_sanitizeIndexes ss s e = GOk (ss, z_sanitize (SortedSet_length ss) s e).
 Proof. exact go_sanitizeIndexes_eq. Qed.
 Print Assumptions C07_code_sanitizeIndexes.
+
+Theorem C07_code_ZRem_eq : forall now g zhas t b k,
+  GoTxZFacts.txz_abs g zhas t -> GoTxZFacts.now_ok now -> GoTxZFacts.arg_ok b -> GoTxZFacts.arg_ok k ->
+  let mr := if zhas b then tx_put t b k [] 0 F_ZRem (Z.to_N now) DS_ZSet else (t, RErr) in
+  exists g' e,
+    GoTxZ.go_Tx_ZRem now g b k = GOk (g', e) /\
+    GoTxZFacts.txz_abs g' zhas (fst mr) /\ GoTxZ.Tx_db g' = GoTxZ.Tx_db g /\ (e <> ENil -> g' = g) /\
+    GoTxZFacts.err_of_res e (snd mr).
+Proof. exact GoTxZFacts.go_Tx_ZRem_eq. Qed.
+Print Assumptions C07_code_ZRem_eq.
+
+Theorem C07_code_ZRem_closed : forall now g b k, GoTxZ.Tx_db_isnil g = true ->
+  exists e, GoTxZ.go_Tx_ZRem now g b k = GOk (g, e) /\ e <> ENil.
+Proof. exact GoTxZFacts.go_Tx_ZRem_closed. Qed.
+Print Assumptions C07_code_ZRem_closed.
+
+Theorem C07_code_ZRemRangeByRank_eq : forall now g zhas t b s e,
+  GoTxZFacts.txz_abs g zhas t -> GoTxZFacts.now_ok now -> GoTxZFacts.arg_ok b ->
+  GoTxZFacts.arg_ok (print_Z s) -> GoTxZFacts.arg_ok (print_Z e) ->
+  let mr := if zhas b then tx_put t b (print_Z s) (print_Z e) 0 F_ZRemRange (Z.to_N now) DS_ZSet else (t, RErr) in
+  exists g' er,
+    GoTxZ.go_Tx_ZRemRangeByRank now g b s e = GOk (g', er) /\
+    GoTxZFacts.txz_abs g' zhas (fst mr) /\ GoTxZ.Tx_db g' = GoTxZ.Tx_db g /\ (er <> ENil -> g' = g) /\
+    GoTxZFacts.err_of_res er (snd mr).
+Proof. exact GoTxZFacts.go_Tx_ZRemRangeByRank_eq. Qed.
+Print Assumptions C07_code_ZRemRangeByRank_eq.
+
+Theorem C07_code_ZRemRangeByRank_closed : forall now g b s e, GoTxZ.Tx_db_isnil g = true ->
+  exists er, GoTxZ.go_Tx_ZRemRangeByRank now g b s e = GOk (g, er) /\ er <> ENil.
+Proof. exact GoTxZFacts.go_Tx_ZRemRangeByRank_closed. Qed.
+Print Assumptions C07_code_ZRemRangeByRank_closed.
+
+(** the abstraction is satisfiable: any Go transaction object, once open, writable and with no pending write,
+    stands for the empty model transaction with the same id *)
+Example C07_code_txz_abs_satisfiable : forall g0, 0 <= GoTxZ.Tx_id g0 ->
+  GoTxZFacts.txz_abs (GoTxZ.set_Tx_pendingWrites (GoTxZ.set_Tx_writable (GoTxZ.set_Tx_db_isnil g0 false) true) [])
+                     (fun b => has_key (GoTxZ.DB_SortedSetIdx (GoTxZ.Tx_db g0)) b)
+                     (mkTx (Z.to_N (GoTxZ.Tx_id g0)) true []).
+Proof.
+  intros g0 H. unfold GoTxZFacts.txz_abs. cbn. rewrite Z2N.id by exact H.
+  repeat split; constructor.
+Qed.
